@@ -40,13 +40,26 @@ for h in range(nh):
         global evals
         evals+=1
         if len(w.times)!=len(times) or not np.array_equal(w.times,times): return tag+' grid'
-        resid=np.asarray(w.values)-expected(times)
+        e0=expected(times)
+        # set-valued reference at signal edges: a query time within a few ulp of a signal's first/last sample may
+        # legitimately see either the edge value or 0
+        lo=e0.copy(); hi=e0.copy()
+        step=times[1]-times[0]
+        for (t,v) in model:
+            for edge_t,edge_v in ((t[0],v[0]),(t[-1],v[-1])):
+                k=np.where(np.abs((np.asarray(times)-nd*step)-edge_t)<=8*np.finfo(float).eps*max(abs(edge_t),abs(times[0]),abs(times[-1]),1e-300)*4+1e-22)[0]
+                for i in k:
+                    lo[i]=min(lo[i],e0[i]-gain*edge_v,e0[i]+gain*edge_v,e0[i]); hi[i]=max(hi[i],e0[i]-gain*edge_v,e0[i]+gain*edge_v,e0[i])
+        wv=np.asarray(w.values)
+        resid=np.where(wv<lo,wv-lo,np.where(wv>hi,wv-hi,0.0)) if not noisy else wv-e0
+        edge_idx=set(np.where(hi>lo)[0].tolist())
         if not noisy:
             if np.max(np.abs(resid))>1e-9:
                 bad=np.where(np.abs(resid)>1e-9)[0]
                 return tag+' value dev %.3g badidx %s of %d win[%g,%g]ns sigs %s'%(np.max(np.abs(resid)), bad[:5].tolist()+bad[-2:].tolist(), len(times), times[0]*1e9, times[-1]*1e9, [(round(t[0]*1e9),round(t[-1]*1e9)) for t,v in model])
         else:
-            for t,r in zip(times,resid):
+            for ii,(t,r) in enumerate(zip(times,resid)):
+                if ii in edge_idx: continue
                 key=(epoch,float(t))
                 if key in noise_obs:
                     if abs(noise_obs[key]-r)>1e-8: return tag+' noise inconsistent %.3g'%abs(noise_obs[key]-r)
